@@ -11,6 +11,8 @@ import (
 
 	"github.com/goghcrow/yae"
 	"github.com/goghcrow/yae/compiler"
+	"github.com/goghcrow/yae/fun"
+	"github.com/goghcrow/yae/interp"
 	"github.com/goghcrow/yae/parser/ast"
 	"github.com/goghcrow/yae/types"
 	"github.com/goghcrow/yae/val"
@@ -709,8 +711,23 @@ func checkRecompile(c *RecompileCase) *Outcome {
 		vals map[string]*m.Val
 		want string
 		step int
+		itp  bool
 	}
 	var earlier []kept
+	// the same through the AST interpreter, which reads the checker's annotations while it
+	// evaluates: its run-time environment carries the built-in functions itself
+	itpEngine := yae.NewExpr().UseCompiler(interp.Interp)
+	var parsedI ast.Expr
+	if p := run.Guard(func() { parsedI = itpEngine.Parse(src) }); p != nil {
+		return bad("harness: template %q does not parse: %s", src, p.Text)
+	}
+	itpEnv := func(vs map[string]*m.Val) *val.Env {
+		ve := run.NewEngine(run.VMSwitch, nil).ValEnv(vs)
+		for _, f := range fun.BuiltIn() {
+			ve.RegisterFun(f)
+		}
+		return ve
+	}
 	for step, ti := range c.Types {
 		ty := recompileTypes[ti%len(recompileTypes)]
 		env := map[string]*m.Type{"x": ty, "y": ty}
@@ -744,13 +761,28 @@ func checkRecompile(c *RecompileCase) *Outcome {
 		}
 		want, _ := runOn(fresh)
 		got, gotErr := runOn(shared)
-		runTree := func(cl compiler.Closure, vs map[string]*m.Val) string {
+		runTreeEnv := func(cl compiler.Closure, ve *val.Env) string {
 			var v *val.Val
 			var out string
-			if p := run.Guard(func() { out = run.CaptureStdout(func() { v = cl(en.ValEnv(vs)) }) }); p != nil {
+			if p := run.Guard(func() { out = run.CaptureStdout(func() { v = cl(ve) }) }); p != nil {
 				return "error"
 			}
 			return "value " + v.String() + " | stdout " + out
+		}
+		runTree := func(cl compiler.Closure, vs map[string]*m.Val) string { return runTreeEnv(cl, en.ValEnv(vs)) }
+		// interpreter route
+		{
+			var cli compiler.Closure
+			gotI := ""
+			if p := run.Guard(func() { cli = itpEngine.CompileExpr(parsedI, run.TypeEnv(env)) }); p != nil {
+				gotI = "error"
+			} else {
+				gotI = runTreeEnv(cli, itpEnv(vals))
+				earlier = append(earlier, kept{cli, vals, gotI, step, true})
+			}
+			if gotI != want {
+				return bad("step %d (AST interpreter): compiling the parsed tree of %q (parsed once, compiled before against other types) against x,y : %s gives [%s]; a fresh engine on the text gives [%s]\n type sequence: %v", step, src, ty, gotI, want, c.Types)
+			}
 		}
 		var cl compiler.Closure
 		gotTree := ""
@@ -758,14 +790,20 @@ func checkRecompile(c *RecompileCase) *Outcome {
 			gotTree = "error"
 		} else {
 			gotTree = runTree(cl, vals)
-			earlier = append(earlier, kept{cl, vals, gotTree, step})
+			earlier = append(earlier, kept{cl, vals, gotTree, step, false})
 		}
 		if gotTree != want {
 			return bad("step %d: compiling the parsed tree of %q (parsed once, compiled before against other types) against x,y : %s gives [%s]; a fresh engine on the text gives [%s]\n type sequence: %v", step, src, ty, gotTree, want, c.Types)
 		}
 		// what was compiled earlier keeps behaving as it did
 		for _, k := range earlier {
-			if now := runTree(k.cl, k.vals); now != k.want {
+			now := ""
+			if k.itp {
+				now = runTreeEnv(k.cl, itpEnv(k.vals))
+			} else {
+				now = runTree(k.cl, k.vals)
+			}
+			if now != k.want {
 				return bad("after step %d the closure compiled at step %d from the same parsed tree of %q gives [%s], it gave [%s]\n type sequence: %v", step, k.step, src, now, k.want, c.Types)
 			}
 		}
